@@ -364,12 +364,12 @@ impl World {
     }
 
     /// The chain admin migrates a contract to the same code: its `migrate` entry point runs (atomic).
-    pub fn migrate(&mut self, contract: &str) -> R<Vec<Ev>> {
+    pub fn migrate(&mut self, contract: &str, msg: Binary) -> R<Vec<Ev>> {
         let snapshot = self.clone();
         let t0 = self.trace.len();
         let kind = self.contracts.get(contract).ok_or(format!("no such contract {}", contract))?.0;
         let r = (|| -> R<()> {
-            let resp = self.call(kind, contract, "chainadmin", vec![], Call::Migrate)?;
+            let resp = self.call(kind, contract, "chainadmin", vec![], Call::Migrate(msg.clone()))?;
             for sm in resp.messages {
                 self.dispatch(contract, sm.msg, 1)?;
             }
@@ -713,8 +713,8 @@ impl World {
 pub enum Call {
     Instantiate(Binary),
     Execute(Binary),
-    /// the contract's `migrate` entry point with an empty message (an upgrade to the same code)
-    Migrate,
+    /// the contract's `migrate` entry point (an upgrade to the same code)
+    Migrate(Binary),
 }
 
 fn run(kind: Kind, deps: DepsMut, env: Env, info: MessageInfo, call: Call) -> R<Response> {
@@ -726,19 +726,19 @@ fn run(kind: Kind, deps: DepsMut, env: Env, info: MessageInfo, call: Call) -> R<
                     .map_err(|e| e.to_string()),
                 Call::Execute(b) => c::execute(deps, env, info, from_json(&b).map_err(|e| e.to_string())?)
                     .map_err(|e| e.to_string()),
-                Call::Migrate => $mig(deps, env),
+                Call::Migrate(b) => $mig(deps, env, b),
             }
         }};
         ($m:path) => {{
             use $m as c2;
-            go!($m, |d: DepsMut, e: Env| c2::migrate(d, e, from_json(b"{}").map_err(|e| e.to_string())?).map_err(|e| e.to_string()))
+            go!($m, |d: DepsMut, e: Env, b: Binary| c2::migrate(d, e, from_json(&b).map_err(|e| e.to_string())?).map_err(|e| e.to_string()))
         }};
     }
     match kind {
         Kind::Hub => go!(basset_sei_hub::contract),
         Kind::Bsei => go!(basset_sei_token_bsei::contract),
         // the stSei token has no migrate entry point
-        Kind::Stsei => go!(basset_sei_token_stsei::contract, |_d: DepsMut, _e: Env| -> R<Response> { Err("no migrate entry point".into()) }),
+        Kind::Stsei => go!(basset_sei_token_stsei::contract, |_d: DepsMut, _e: Env, _b: Binary| -> R<Response> { Err("no migrate entry point".into()) }),
         Kind::Reward => go!(basset_sei_reward::contract),
         Kind::Dispatcher => go!(basset_sei_rewards_dispatcher::contract),
         Kind::Registry => go!(basset_sei_validators_registry::contract),
